@@ -242,7 +242,14 @@ impl FixedMethod {
                 self.buffer.push(ZWJ);
             }
             if config.get_fixed_old_kar_order() && is_left_standing_kar(rmc) {
+                // The Zo-fola joins the consonant under the left standing Kar,
+                // so that is the one to be checked for a র which is not a part of a Ro-fola.
+                let under_kar = self.buffer.chars().rev().nth(1).unwrap_or_default();
+                let before_that = self.buffer.chars().rev().nth(2).unwrap_or_default();
                 if let Some(kar) = self.buffer.pop() {
+                    if under_kar == B_R && before_that != B_HASANTA {
+                        self.buffer.push(ZWJ);
+                    }
                     self.buffer.push_str(value);
                     self.buffer.push(kar);
                     return;
